@@ -828,6 +828,14 @@ func c16TunnelClose(p c16Plan) *common.Fail {
 // c16HPAI: knx.NewTunnel over the real sockets; the connect request's endpoints.
 func c16HPAI(p c16Plan) *common.Fail {
 	cfg := knx.TunnelConfig{ResendInterval: 200 * time.Millisecond, ResponseTimeout: 2 * time.Second, HeartbeatInterval: time.Hour, UseTCP: p.TCP, SendLocalAddress: p.SendLocal}
+	switch p.Senders { // hpai: which of the timing fields the application leaves at zero (the library fills in its defaults)
+	case 1:
+		cfg.ResendInterval, cfg.ResponseTimeout, cfg.HeartbeatInterval = 0, 0, 0
+	case 2:
+		cfg.HeartbeatInterval = 0
+	case 3:
+		cfg.ResendInterval, cfg.ResponseTimeout = 0, 0
+	}
 	type seen struct {
 		req  *knxnet.ConnReq
 		from net.Addr
@@ -977,6 +985,7 @@ func genPlanC16(rt *rapid.T) c16Plan {
 	switch mode {
 	case "hpai":
 		p.TCP, p.SendLocal = rapid.Bool().Draw(rt, "tcp"), rapid.Bool().Draw(rt, "sendlocal")
+		p.Senders = rapid.SampledFrom([]int{0, 1, 1, 2, 3}).Draw(rt, "timing-left-at-defaults")
 		return p
 	case "tcp-tunnel-close":
 		for i := 0; i < rapid.IntRange(1, 6).Draw(rt, "unread"); i++ {
